@@ -1,7 +1,7 @@
 """psv.props — which rules decide which property."""
 from . import core
 from .report import Check
-from .rules import cw, ed, mt, ts, vg, pm, ax, kb, dp
+from .rules import cw, ed, mt, ts, vg, pm, ax, kb, dp, sg, uw, sm, fs
 
 
 def c18(tier):
@@ -214,7 +214,94 @@ def c02(tier):
     return C.finish()
 
 
-TABLE = {"C03": c03, "C02": c02, "C05": c05, "C04": c04, "C16": c16, "C15": c15, "C18": c18, "C08": c08, "C12": c12, "C20": c20, "C13": c13, "C07": c07}
+def c10(tier):
+    C = Check("C10", tier,
+              explanation="Monotonic fit decided structurally as 'non-decreasing coefficients along the monotonic dimension': the monotonic branch "
+              "solves with the non-negative solver and copies only its result (SG-1); every store into the solver's result vector is 0, a guarded "
+              "copy of a sign-checked solution, or a clamped trial value (SG-2); the prefix sum back to B-spline coefficients has the row-major "
+              "affine index forms and nothing writes the output afterwards (SG-3); the lower-triangular change of basis is applied to basis and "
+              "penalty of the same dimension (SG-4). With non-negative increments and monotone rounding of += this gives non-decreasing "
+              "coefficients, hence (B-spline property, assumed theorem) a non-decreasing surface. Does not decide the second sentence of the "
+              "property (inactive constraint gives the same coefficients) nor non-finite data.",
+              assumptions=["B-splines with non-decreasing coefficients are non-decreasing (variation-diminishing property)",
+                           "IEEE float addition is monotone; the copy double->float rounds monotonically",
+                           "NaN data are out of scope (a NaN trial value is not clamped)"])
+    P = core.load(tier=tier)
+    sg.run_mono(P, C)
+    sg.run_sign(P, C)
+    C.extra["units"] = sorted(P.units.keys())
+    return C.finish()
+
+
+def c11(tier):
+    C = Check("C11", tier,
+              explanation="Only the clause 'component-wise non-negative exactly, for the solver used by fitting' is decided, by sign provenance of "
+              "every store into nnls_normal_block3's result (SG-2). KKT optimality, agreement with the unique minimiser, termination of the inner "
+              "loop and everything about the three other exported solvers are numerical and are NOT decided.",
+              assumptions=["NaN data are out of scope"])
+    P = core.load(tier=tier)
+    sg.run_sign(P, C)
+    C.extra["units"] = sorted(P.units.keys())
+    C.extra["not_decided"] = ["KKT conditions", "termination", "nnls_lawson_hanson", "nnls_normal_block", "nnls_normal_block_updown"]
+    return C.finish()
+
+
+def c14(tier):
+    C = Check("C14", tier,
+              explanation="Two structural clauses of convolution: the normalisation helper factorial is total on the arguments convolve passes, 0 "
+              "included, and has the canonical product loop (UW-1); convolve updates exactly the convolved dimension's order, knot count and "
+              "coefficient count to order+n-1, nknots*n and nknots'-order'-1, recomputes strides, and touches no other dimension's shape "
+              "(UW-2); a failing convolve cannot leave a modified unprotected table (TS-2). The integral identity itself (blossoming, divided "
+              "differences, sign of the normalisation) is numerical and is NOT decided.",
+              assumptions=["admitted range: order <= 5 in the convolved dimension, kernels of 2..6 knots, so (k+q-1)! <= 10!"])
+    P = core.load(tier=tier)
+    uw.uw1(P, C)
+    uw.uw2(P, C)
+    ts.ts2(P, C, only=("convolve",), rule_floor=1)
+    cw.cw1(P, C, only=("splinetable_convolve",))
+    C.extra["units"] = sorted(P.units.keys())
+    C.extra["not_decided"] = ["convolution integral identity", "convoluted_blossom / divdiff numerics"]
+    return C.finish()
+
+
+def c19(tier):
+    C = Check("C19", tier,
+              explanation="Size-model agreement decided structurally: every allocation the reader makes through the allocator has an estimateMemory "
+              "term with the same element size and affine count, dimension-wise terms inside the per-dimension loop, each term used once; "
+              "auxiliary entries are covered by the per-key bound under the card-length lemma (SM-1); the model's convolution adjustments equal "
+              "the shape convolve produces (SM-2); convolve releases before it allocates and uses the allocator only for members (SM-3); owned "
+              "members only ever receive allocator memory (TS-3a). Does not decide allocator overhead/alignment (the property counts requested "
+              "bytes) nor files that are not well-formed.",
+              assumptions=["card-length lemma: for any header card cfitsio returns, strlen(key)+1 + strlen(value)+1 <= 82",
+                           "the table read by the constructor and the one measured by estimateMemory are the same file"])
+    P = core.load(tier=tier)
+    na, nt = sm.sm1(P, C)
+    sm.sm2(P, C)
+    sm.sm3(P, C)
+    n = sm.ts3a(P, C)
+    C.extra["reader_allocation_sites"] = na
+    C.extra["model_terms"] = nt
+    C.extra["owned_pointer_stores"] = n
+    C.extra["units"] = sorted(P.units.keys())
+    return C.finish()
+
+
+def c06(tier):
+    C = Check("C06", tier,
+              explanation="Round-trip structure decided as schema agreement: the writer's sequence of HDUs, keys, name patterns and axis order "
+              "(extracted from the resolved cfitsio calls of write_fits_core) matches the documented layout and everything the reader, readOrder "
+              "and estimateMemory look up (FS-1); every transfer's datatype code matches the buffer element type, writer and reader agree per "
+              "item, BITPIX matches the element type (FS-2); reads substitute no special values (FS-3); the reserved-key filter is shared "
+              "(FS-4). Does not decide bit-exactness of cfitsio's conversions, decoding of the shipped reference files, or independent readers.",
+              assumptions=["cfitsio implements the FITS standard for the calls used"])
+    P = core.load(tier=tier)
+    fs.run(P, C)
+    ax.fs4(P, C)
+    C.extra["units"] = sorted(P.units.keys())
+    return C.finish()
+
+
+TABLE = {"C06": c06, "C19": c19, "C14": c14, "C10": c10, "C11": c11, "C03": c03, "C02": c02, "C05": c05, "C04": c04, "C16": c16, "C15": c15, "C18": c18, "C08": c08, "C12": c12, "C20": c20, "C13": c13, "C07": c07}
 
 
 def run(prop, tier):
